@@ -200,7 +200,7 @@ pub fn plan(prop: &str) -> Vec<Item> {
             v.extend(prog_threads(3, &["D", "S", "T", "FDs"], "pool=0", Some(1), 1, 3, 1));
         }
         "C04" => v.extend(prog_threads(3, &["S", "D", "FDa", "FDs", "T"], "pool=1", Some(1), 1, 5, 1)),
-        "C09" => v.extend(prog_threads(3, &["T", "S", "D", "FDa", "FSa"], "pool=1", Some(1), 1, 5, 1)),
+        "C09" => v.extend(prog_threads(3, &["T", "S", "D", "FDa", "FSa"], "pool=1", Some(0), 1, 3, 1)),
         _ => {}
     }
     // run-on-wake executors (`inl`=1): every awaited task is polled inside its waker, under the task's lock
@@ -611,7 +611,7 @@ fn plan_base(prop: &str) -> Vec<Item> {
             v.push(it("indep_race", "pool=3,n=3", Some(0), 1));
             // several pool threads die in panics while one object stays blocked: free objects are still served
             for keep in [0, 1, 2] {
-                v.push(it("panic_many", &format!("pool=3,keep={}", keep), Some(1), 2));
+                v.push(it("panic_many", &format!("pool=3,keep={}", keep), Some(if keep == 0 { 1 } else { 0 }), 2));
             }
             v.push(it("panic_many", "pool=2,keep=1", Some(2), 3));
             // the maximum is raised by two or more while several objects wait in the schedule and the first of them blocks
@@ -778,9 +778,9 @@ fn plan_base(prop: &str) -> Vec<Item> {
                 v.push(it("pool_census", &format!("pool={},n=2,phases=2,api=1", pool), Some(if pool == 2 { 0 } else { 1 }), if pool == 2 { 0 } else { 2 }));
             }
             v.push(it("pool_census", "pool=0,n=2,phases=5,api=1", Some(1), 2));
-            v.push(it("pool_census", "pool=1,n=1,phases=5,api=1", Some(1), 1));
+            v.push(it("pool_census", "pool=1,n=1,phases=5,api=1", Some(0), 1));
             v.push(it("pool_census", "pool=1,n=2,phases=5,api=1", Some(0), 1));
-            v.push(it("pool_census", "pool=2,n=1,phases=5,api=1", Some(0), 0));
+            v.push(it("pool_census", "pool=2,n=1,phases=5,api=1", None, 0));
             v.push(it("pool_census", "pool=1,n=2,phases=3,api=1", Some(1), 2));
             v.push(it("pool_census", "pool=1,n=2,phases=4,api=1", Some(0), 1));
             v.push(it("pool_census", "pool=1,n=2,phases=0,dbg=1", Some(1), 2));
